@@ -140,3 +140,59 @@ func VerifC02_NoFile() {
 	err := verifServer(h).VerifStep(ctx)
 	verifrt.Assert(err != nil && len(conn.Out) == 0, "nofile.ends-connection")
 }
+
+// Two files on one connection: what was read from the first never shows in reads of the second.
+func VerifC02_Reopen() {
+	led := &verifstub.Ledger{}
+	sa, sb := verifrt.Int64("a.size"), verifrt.Int64("b.size")
+	verifrt.Assume(sa >= 0)
+	verifrt.Assume(sa <= 6)
+	verifrt.Assume(sb >= 0)
+	verifrt.Assume(sb <= 6)
+	base := &verifstub.Fs{L: led, Entries: []*verifstub.Entry{
+		{Path: "/a.bin", File: &verifstub.File{Label: "filea", Size: sa}},
+		{Path: "/b.bin", File: &verifstub.File{Label: "fileb", Size: sb}},
+	}}
+	h := &Handler{Fs: &fs.FS{Fs: base}, Copier: copier.NewPooledCopier(4)}
+	srv := verifServer(h)
+	conn := &verifstub.Conn{}
+	ctx := server.VerifNewContext[State](conn)
+	step := func(req []byte) error {
+		conn.In = append(conn.In, req...)
+		conn.Out = nil
+		return srv.VerifStep(ctx)
+	}
+	verifrt.Assert(step(verifPathCmd(0x1224, "/a.bin")) == nil, "reopen.open-a")
+	l1, o1 := verifrt.Uint32("limit1"), verifrt.Uint64("off1")
+	verifrt.Assume(l1 <= 4)
+	verifrt.Assume(o1 <= 8)
+	op1 := uint16(0x1225 + 2*verifrt.Choice("op1", 2))
+	_ = step(verifReadCmd(op1, l1, o1))
+	if verifrt.Bool("closefile-between") {
+		verifrt.Assert(step(verifPathCmd(0x1224, "/CLOSEFILE")) == nil, "reopen.closefile")
+	}
+	if ctx.State.ROFile == nil && op1 == 0x1225 && int64(o1)+int64(l1) > sa {
+		// the critical read could not be satisfied: the connection would have ended here
+		return
+	}
+	verifrt.Assert(step(verifPathCmd(0x1224, "/b.bin")) == nil, "reopen.open-b")
+	l2, o2 := verifrt.Uint32("limit2"), verifrt.Uint64("off2")
+	verifrt.Assume(l2 >= 1)
+	verifrt.Assume(l2 <= 4)
+	verifrt.Assume(o2 <= 8)
+	err := step(verifReadCmd(0x1227, l2, o2))
+	m := int64(l2)
+	if sb-int64(o2) < m {
+		m = sb - int64(o2)
+	}
+	if m < 0 {
+		m = 0
+	}
+	verifrt.Assert(err == nil && int64(len(conn.Out)) == 4+m, "reopen.second-read-length")
+	if int64(len(conn.Out)) == 4+m {
+		j := verifrt.Int64("j")
+		verifrt.Assume(j >= 0)
+		verifrt.Assume(j < m)
+		verifrt.Assert(conn.Out[4+j] == verifrt.ByteAt("fileb", int64(o2)+j), "reopen.second-read-bytes")
+	}
+}
